@@ -190,6 +190,8 @@ func checkSchemaTableF(c *Ctx, rule string, table []typeSpec, strictNS bool, flo
 }
 
 func ruleC08(c *Ctx) {
+	c.rule("C08-R10", "the parsed message reaches signature verification as parsed: no tree-changing operation outside the frozen table in the inbound cone (shared treeHygiene) — a canonicaliser run over the live Response for a log line strips what inclusive / with-comments signatures cover")
+	treeHygiene(c, "C08-R10", c09Roots[:6])
 	c.rule("C08-R1", "schema table: for every field the property enumerates, the parsed xml tag (kind, local name, namespace of the element type's XMLName) and Go type equal the SAML core schema entry")
 	c.rule("C08-R2", "summary wiring in RetrieveAssertionInfo: NameID, Values[attribute.Name] = attribute for all attributes in order, SessionIndex / AuthnInstant / SessionNotOnOrAfter from the AuthnStatement, Assertions = the whole validated list")
 	c.rule("C08-R3", "accessor idioms: Get = first value or \"\", GetSize = len or 0, GetAll = all values in index order; nil map and absent key give empty results")
@@ -403,6 +405,8 @@ func accessors(c *Ctx, rule string) {
 // ---------------------------------------------------------------- C20
 
 func ruleC20(c *Ctx) {
+	c.rule("C20-R9", "full validation decodes the root as the IdP sent it: no tree-changing operation outside the frozen table in the inbound cone (shared treeHygiene) — sorting the live root's attributes changes which duplicate encoding/xml keeps")
+	treeHygiene(c, "C20-R9", c09Roots[:6])
 	c.rule("C20-R1", "sibling tags: every field of UnverifiedBaseResponse has a same-named field in Response with identical parsed xml tag and Go type; the two XMLName tags are equal")
 	c.rule("C20-R2", "the logout pre-decoder fills the same named type (types.LogoutResponse) that full validation fills")
 	c.rule("C20-R6", "same normal form: the pre-decoders feed encoding/xml the etree re-serialisation of the parsed message, like every validated decode, not the raw octets (necessary for agreement on character references, repeated attributes and encoding declarations; it does not by itself establish agreement on attribute order under canonicalisation)")
